@@ -641,8 +641,47 @@ def rule_refusal_ends_wait(la, res, site, flag=("channel", "is_accepting_writes"
                     ok = False
                     break
                 st += [s for s in f.blocks[x].succ_ids() if s in loop]
-    if ok:
-        res.oblige(rule, inst, True, "exit condition in block(s) %s" % sorted(good), where)
+    # ... and before the first sleep: a refusal that was raised (and announced) before the waiter looked is
+    # announced no second time; a waiter that goes to sleep without having tested the flag sleeps for ever
+    first_ok = True
+    if ok and good:
+        from . import paths as _p
+        gstm = {id(f.blocks[g_].stmts[f.blocks[g_].cond]) for g_ in good if f.blocks[g_].cond is not None}
+        # any other test of the flag in front of the wait whose flag-clear side cannot get to the wait
+        # (the outer loop of a nested re-check, an early exit before the loop)
+        for bb in f.blocks.values():
+            cn = bb.cond_node()
+            if cn is None or len(bb.succs) != 2 or bb.cond is None:
+                continue
+            for su in bb.succs:
+                lab = su.get("label")
+                if lab not in ("true", "false") or su.get("to") is None:
+                    continue
+                if not any(isinstance(a_, dict) and a_.get("k") == "mem" and a_.get("f") == flag[1] and pol_ for a_, pol_ in atoms(cn, lab == "true")):
+                    continue
+                other = [o.get("to") for o in bb.succs if o is not su and o.get("to") is not None]
+                seen_ = set()
+                st_ = list(other)
+                reach_wait = False
+                while st_:
+                    x_ = st_.pop()
+                    if x_ in seen_ or x_ == bb.id:
+                        continue
+                    seen_.add(x_)
+                    if x_ == site["block"]:
+                        reach_wait = True
+                        break
+                    st_ += f.blocks[x_].succ_ids()
+                if not reach_wait:
+                    gstm.add(id(bb.stmts[bb.cond]))
+        first_ok, _w = _p.all_paths_pass(f, "entry", {(site["block"], site["idx"])}, lambda q: id(q) in gstm)
+    if ok and first_ok:
+        res.oblige(rule, inst, True, "exit condition in block(s) %s, evaluated before the first wait too" % sorted(good), where)
+    elif ok and not first_ok:
+        res.fail(rule, inst, "%s|%s|first" % (rule, f.name), where,
+                 "%s can go to sleep without having tested %s: a refusal raised and announced before the waiter took the lock is not announced again, "
+                 "the callee folds it into 'no room', and the waiter sleeps for ever (abort landing between the source's stop test and its next write; "
+                 "the filter's next write after the sink failed)" % (f.name, ".".join(flag)))
     else:
         res.fail(rule, inst, "%s|%s" % (rule, f.name), where,
                  "the wait loop of %s does not leave when %s is cleared: %s - a writer that is already asleep when writes are refused wakes up, "
